@@ -644,6 +644,10 @@ pub fn lookup(name: &str) -> Option<OpFn> {
                 r.push(q.magnitude2() - one);
                 r.extend(diff(q * u, -u));
                 r.push(q.v.dot(u));
+                // the same half turn through the Basis3 entry point
+                let bo: Basis3<X> = Rotation::between_vectors(u, -u);
+                r.extend(diff(bo.rotate_vector(u), -u));
+                r.extend(diff(Matrix3::from(bo), Matrix3::from(q)));
             }
             ok(r)
         },
